@@ -318,7 +318,7 @@ def value_window(fn, ch, is_values):
         if st is None:
             return {"count": None, "voff": None, "exact": False, "ioff": None, "ipath": None, "vpath": None}      # a side of unknown length
         for name, t, sides in reversed(chain[:-1]):
-            if name in ("iter", "into_iter", "copied", "cloned", "by_ref", "peekable", "deref", "as_ref", "as_slice", "borrow", "inner", "index"):
+            if name in ("iter", "iter_mut", "into_iter", "copied", "cloned", "by_ref", "peekable", "deref", "deref_mut", "as_ref", "as_slice", "as_mut_slice", "borrow", "inner", "index"):
                 continue
             if name == "map":
                 st["ipath"] = st["vpath"] = None       # the element is whatever the closure returns
